@@ -39,9 +39,12 @@ def inferMaybeFloat (s : Bytes) : Outcome :=
 def inferDecimalInt (s : Bytes) : Outcome :=
   match Dec.parseInt 10 s with
   | some v => .ok (.int v)
-  | none => .ok (setFromString s)
+  | none => inferMaybeFloat s
 
-def inferLeadingZeroDecimalIntAsInt (s : Bytes) : Outcome := inferDecimalInt s
+def inferLeadingZeroDecimalIntAsInt (s : Bytes) : Outcome :=
+  match Dec.parseInt 10 s with
+  | some v => .ok (.int v)
+  | none => .ok (setFromString s)
 
 def inferFromLeadingZeroOctalIntAsInt (s : Bytes) : Outcome :=
   match Dec.parseInt 8 s with
